@@ -280,7 +280,7 @@ def main(argv=None):
         elif r.get('twin') is False:
             twins_bad.append(r['cfg'])
         twins_ok += r.get('stats', {}).get('twins_ok', 0)
-        if r.get('stats', {}).get('twins_bad', 0):
+        if r.get('stats', {}).get('twin_attempts', 0) >= 3 and not r.get('stats', {}).get('twins_ok', 0):
             twins_bad.append(r['cfg'])
         if r.get('sample') is not None and len(samples) < 12:
             samples.append(r['sample'])
